@@ -31,7 +31,8 @@ ASSUMPTIONS = ["'subscribed at that time' = at the instant the round was request
                "event ids are distinct across the eventgroups of the service, so every notification is attributable"]
 FLOORS = {"quick": {"scripts": 5000, "notifications_checked": 150000, "initial_notifications": 15000, "explicit_round_notifications": 20000,
                     "cyclic_rounds": 10000, "session_ids_checked": 150000, "refusals_checked": 2000, "latency_scripts": 1500,
-                    "rounds_with_no_subscriber": 1500, "unsubscribe_between_request_and_send": 30, "unsubscribe_of_unsubscribed_endpoint": 800}}
+                    "rounds_with_no_subscriber": 1500, "unsubscribe_between_request_and_send": 30, "unsubscribe_of_unsubscribed_endpoint": 800,
+                    "wrap_notifications_checked": 130000, "wrap_session_id_wraps": 2}}
 
 FOREVER = 0xFFFFFF
 SID, MAJ = 0xA001, 4
@@ -417,10 +418,91 @@ def judge(ctx, sc, seed, replay):
 
 
 def shards(tier, seed):
-    return [dict(shard=i, seed=seed, n=400 if tier == "quick" else 20000) for i in range(16)]
+    out = [dict(shard=i, seed=seed, n=400 if tier == "quick" else 20000) for i in range(16)]
+    # "long enough to wrap the per-destination session id": 65535 = 3*5*17*257, so with 4 or 7 events per round the id
+    # 0xFFFF is not the last one of its datagram
+    out.append(dict(shard=50, seed=seed, mode="wrap", events=4, rounds=65535 // 4 + 30))
+    if tier != "quick":
+        out.append(dict(shard=51, seed=seed, mode="wrap", events=7, rounds=2 * 65535 // 7 + 30))
+    return out
+
+
+def wrap_walk(spec, ctx):
+    """explicit rounds for two subscribers (IPv4 / IPv6) across the wrap of their session ids: every round complete,
+    ids 1..0xFFFF, 1, ... without 0, fields and payload right on every message"""
+    import ipaddress
+    import someip.header as H
+    import someip.service as SV
+
+    h = Harness(random.Random(spec["seed"]), max_iterations=40 * spec["rounds"] + 200000)
+    nev = spec["events"]
+
+    class Svc(SV.SimpleService):
+        service_id = SID
+        version_major = MAJ
+        version_minor = 1
+
+    res = {}
+    eps = [H.IPv4EndpointOption(address=ipaddress.IPv4Address("10.0.17.21"), l4proto=H.L4Protocols.UDP, port=6101),
+           H.IPv6EndpointOption(address=ipaddress.IPv6Address("2001:db8::17:21"), l4proto=H.L4Protocols.UDP, port=6102)]
+
+    def setup():
+        svc = Svc(instance_id=1)
+        svc.transport = net.RecTransport(h.loop, ("10.0.17.1", 30509))
+        eg = SV.SimpleEventgroup(svc, id=1)
+        svc.register_eventgroup(eg)
+        for i in range(nev):
+            eg.values[0x31 + i] = bytes([i, i])
+        for ep in eps:
+            eg.subscribe(ep)
+        res.update(svc=svc, eg=eg)
+
+    h.at(0.0, setup)
+    t = 0.125
+    for r in range(spec["rounds"]):
+        t += 2.0 ** -10
+        h.at(t, lambda: res["eg"].notify_once(list(res["eg"].values.keys())))
+    h.run(t + 1.0)
+    per = collections.defaultdict(list)
+    for tt, _it, data, dst in res["svc"].transport.sent:
+        msgs, broken = refwire.split_datagram(data)
+        if broken:
+            ctx.violation("notification-datagram-malformed", dict(dst=dst, data=data[:48]), dict(kind="wrap", spec=spec))
+            continue
+        per[dst].extend((tt, m) for m in msgs)
+    want_n = nev * (spec["rounds"] + 1)
+    for dst, seq in per.items():
+        exp = 1
+        for k, (tt, m) in enumerate(seq):
+            ctx.count("wrap_notifications_checked")
+            ev = m["mid"] & 0x7FFF
+            if (m["sid"], m["mid"] & 0x8000, m["iv"], m["mt"], m["rc"]) != (SID, 0x8000, MAJ, 2, 0) or not 0x31 <= ev < 0x31 + nev \
+                    or m["payload"] != bytes([ev - 0x31, ev - 0x31]):
+                ctx.violation("notification-header-fields-wrong", dict(dst=dst, index=k, message={x: y for x, y in m.items() if x != "payload"}),
+                              dict(kind="wrap", spec=spec))
+                break
+            if m["sess"] != exp:
+                ctx.violation("notification-session-id-not-counting-per-destination", dict(dst=dst, index=k, expected=exp, got=m["sess"]),
+                              dict(kind="wrap", spec=spec))
+                break
+            if exp == 0xFFFF:
+                ctx.count("wrap_session_id_wraps")
+            exp = 1 if exp >= 0xFFFF else exp + 1
+        got = collections.Counter(m["mid"] & 0x7FFF for _tt, m in seq)
+        if len(seq) != want_n or any(got[0x31 + i] != spec["rounds"] + 1 for i in range(nev)):
+            ctx.violation("explicit-round-misses-a-subscribed-endpoint", dict(dst=dst, notifications=len(seq), expected=want_n,
+                                                                             per_event=dict(got)), dict(kind="wrap", spec=spec))
+    if len(per) != 2:
+        ctx.violation("explicit-round-misses-a-subscribed-endpoint", dict(destinations=list(per)), dict(kind="wrap", spec=spec))
+    for p in h.problems():
+        ctx.violation("unexpected-exception-during-run", dict(problem=p), dict(kind="wrap", spec=spec))
+    h.close()
+    ctx.case(("wrap", nev), True)
 
 
 def run(spec, ctx):
+    if spec.get("mode") == "wrap":
+        return wrap_walk(spec, ctx)
     base = f"C17/{spec['seed']}/{spec['shard']}"
     for i in range(spec["n"]):
         rng = random.Random(f"{base}/{i}")
@@ -432,6 +514,8 @@ def run(spec, ctx):
 
 
 def replay(doc, ctx):
+    if doc.get("kind") == "wrap":
+        return wrap_walk(doc["spec"], ctx)
     rng = random.Random(f"{doc['base']}/{doc['index']}")
     judge(ctx, build(rng), "s", doc)
     ctx.case(("replay",), True)
